@@ -75,11 +75,11 @@ def strategy(tier):
         if cmd in ("ode2py", "ode2c") and draw(st.integers(0, 2)) == 0:
             conf = {}
             if draw(st.booleans()):
-                conf["delta"] = draw(st.sampled_from([1e-3, 0.25]))
+                conf["delta"] = draw(st.sampled_from([1e-3, 0.25, 0.0]))
             if draw(st.booleans()):
-                conf["scheme"] = draw(st.lists(st.sampled_from(SCHEMES[:3]), min_size=1, max_size=2))
+                conf["scheme"] = draw(st.lists(st.sampled_from(SCHEMES[:3]), min_size=0, max_size=2))
             if draw(st.booleans()):
-                conf["stiff_states"] = draw(st.lists(st.sampled_from(states), min_size=1, max_size=2, unique=True))
+                conf["stiff_states"] = draw(st.lists(st.sampled_from(states), min_size=0, max_size=2, unique=True))
             if draw(st.booleans()):
                 conf["verbose"] = draw(st.booleans())
             sub = {}
